@@ -11,7 +11,7 @@ from vmon.libutil import XTCE_NS, monitored, xtce_element
 LEVEL = "exploration"
 SHARDS = {"quick": 16, "thorough": 16}
 MUST = ["int.evaluations", "ieee16.evaluations", "ieee32.evaluations", "ieee64.evaluations", "mil1750a.evaluations",
-        "route.from_xml", "route.ctor", "route.cross_typed_decodes", "offsets.deeper_than_first_byte", "repeated_references.packets", "route.copied_types", "route.copied_decodes", "legacy.spellings", "context-not-applying.cases", "same-raw-object.redecodes"]
+        "route.from_xml", "route.ctor", "identical_encoding_elements.packets", "debug_logging.decodes", "route.cross_typed_decodes", "offsets.deeper_than_first_byte", "repeated_references.packets", "route.copied_types", "route.copied_decodes", "legacy.spellings", "context-not-applying.cases", "same-raw-object.redecodes"]
 RULE = ("ParameterType.parse_value is executed on packets whose field bits are chosen by the harness; every "
         "execution is compared with an explicit model (two's complement / byte reversal / IEEE-754 "
         "sign-exponent-mantissa arithmetic / 1750A rationals) for value, Python class, raw_value and cursor "
@@ -219,6 +219,69 @@ def extras(ctx, types, rng):
                               {"n": n, "results": results})
 
 
+def identical_encoding_elements(ctx, rng):
+    """several parameter types of one document carry textually identical encoding elements, one of them a time type whose <Encoding>
+    adds scale/offset: each type decodes by ITS OWN definition (the plain ones stay exact integers / unscaled floats)"""
+    from vmon import harness, ir, ref, render
+    from vmon.libutil import load_definition
+    from vmon.props.c05 import header_types
+    from space_packet_parser import packets as P
+    for case, (enc, scale, offset) in enumerate(((ir.IntEnc(16, "unsigned"), 0.5, None), (ir.IntEnc(64, "unsigned"), 0.001, 10.0), (ir.FloatEnc(32, "IEEE754", False), 0.5, None),
+                                                 (ir.IntEnc(12, "twosComplement"), 2.0, -1.0), (ir.FloatEnc(64, "IEEE754", True), None, 3.0))):
+        if not ctx.mine(case):
+            continue
+        for order in (("PLAIN", "TIME", "PLAIN2"), ("TIME", "PLAIN", "PLAIN2"), ("PLAIN", "PLAIN2", "TIME")):
+            ts, ps = header_types("PKT_APID")
+            kind_plain = "integer" if isinstance(enc, ir.IntEnc) else "float"
+            tdefs = {"PLAIN": ir.PType("PLAIN_T", kind_plain, enc), "PLAIN2": ir.PType("PLAIN2_T", "float" if kind_plain == "integer" else kind_plain, enc),
+                     "TIME": ir.PType("TIME_T", "abstime", enc, "s", scale=scale, offset=offset)}
+            for n_ in order:                      # the order of the type definitions in the document varies
+                ts.append(tdefs[n_])
+                ps.append(ir.Param(n_, tdefs[n_].name))
+            root = ir.Container("CCSDSPacket", tuple(("p", p.name) for p in ps[:7]) + (("p", "PLAIN"), ("p", "TIME"), ("p", "PLAIN2")))
+            doc = ir.Doc(tuple(ts), tuple(ps), (root,))
+            info = harness.DocInfo(doc)
+            defn = load_definition(render.render_doc(doc))
+            for _ in range(4):
+                body = bytes(rng.getrandbits(8) for _ in range((3 * enc.bits + 7) // 8))
+                if isinstance(enc, ir.FloatEnc):
+                    import struct
+                    body = struct.pack(">f" if enc.bits == 32 else "<d", rng.choice([1.5, -2.25, 1e10])) * 3
+                raw = bytes(P.create_ccsds_packet(body, apid=3))
+                out = ref.walk(doc, raw)
+                step, pkt = harness.parse_single(defn, raw)
+                ctx.count("evaluations")
+                ctx.count("identical_encoding_elements.packets")
+                ctx.sig("identical-encoding-elements", type(enc).__name__, enc.bits, order[0])
+                for mech, msg in harness.judge_single(ctx, info, raw, step, pkt, out):
+                    ctx.violation("identical-encoding-elements/" + mech, f"types in document order {order}: " + msg, {"order": order, "raw": raw})
+                    break
+
+
+def debug_logging_pass(ctx, types, rng):
+    """the integer grid once more with DEBUG logging switched on for the library: values and cursor do not depend on the log level"""
+    import logging
+    lg = logging.getLogger("space_packet_parser")
+    old_level, old_prop = lg.level, lg.propagate
+    lg.setLevel(logging.DEBUG)
+    lg.propagate = False
+    lg.addHandler(logging.NullHandler())
+    try:
+        k = 0
+        for n in (1, 3, 7, 8, 9, 12, 16, 17, 31, 33, 64, 65):
+            for enc in ("unsigned", "twosComplement"):
+                k += 1
+                if not ctx.mine(k):
+                    continue
+                for offset in (0, 3, 8, 13):
+                    for pclass, fb in int_patterns(n, rng, 2):
+                        check_one(ctx, types, "int", n, enc, False, offset, fb, pclass, rng, "ctor" if offset % 2 else "from_xml")
+                        ctx.count("debug_logging.decodes")
+    finally:
+        lg.setLevel(old_level)
+        lg.propagate = old_prop
+
+
 def repeated_references(ctx, rng):
     """one parameter referenced several times in a layout (spare / pad fields are): every reference is decoded at its own
     position and advances the cursor by the field width; the integer and float fields after it are read where they lie"""
@@ -356,6 +419,8 @@ def run(ctx):
     ctx.exhaustive_space("1750A exponents(256) x 64 mantissas x {BE,LE}", 1)
     extras(ctx, types, rng)
     repeated_references(ctx, rng)
+    identical_encoding_elements(ctx, rng)
+    debug_logging_pass(ctx, types, rng)
     ctx.sample({"kind": "int", "n": 13, "encoding": "twosComplement", "offset": 3, "field_bits": "1000000000001",
                 "model_value": bits.int_field("1000000000001", "twosComplement", False)})
     ctx.sample({"kind": "float", "n": 16, "encoding": "IEEE754", "little": True, "field_bits": bits.to_bits(0x01FC, 16),
